@@ -49,6 +49,11 @@ CLAIMED = {
         "level": "Generated collections of all four kinds and all five droplet classes, dims 1-3, None/0/positive widths, extreme finite values, empty collections/members, 0-13 members, int/float/negative times, one sixth heterogeneous; lengths, classes, record bytes, times and library equality compared after from_file.",
         "note": "h5py trusted; files live in a per-process scratch directory removed at exit; writing that raises is accepted only for heterogeneous collections.",
     },
+    "C09": {
+        "technique": "fuzzing with Hypothesis-generated structured requests (fields x grids x option combinations, renders, time courses, invalid requests), exception bucketing by (type, innermost library frame, message stem), finiteness oracle",
+        "level": "Generated valid requests to locate_droplets / DropletTracker / get_phase_field / from_emulsion_time_course over all grid families from 1-cell to moderate shapes and every documented option combination; documented invalid requests must raise the documented type. Collect-then-shrink enumerates root causes in one run (8 buckets on the pinned tree, none on the repaired tree).",
+        "note": "'Valid' is read from the docstrings (finite field, documented options, consistent intensity levels); atheris was not needed - the structured generator reaches every bucket in seconds.",
+    },
     "C10": {
         "technique": _T + "; exhaustive sequences on a 1-D lattice with exact arithmetic; post-condition/invariant oracle",
         "level": "Generated emulsions (0-8 droplets, ties, radius 0, positions outside the box) x min_distance of either sign x grids with every periodicity mask; all ordered sequences of <=3 (thorough 4) lattice droplets exhaustively; from_random on bounds and every grid family.",
